@@ -1082,8 +1082,13 @@ def _wrappers(ctx) -> None:
             dt_ = lambda t: t[0] == "attr" and t[2] == "_dtype" and resolve(t[1]) == OTHER
             if c[1] in ("Is", "IsNot") and (sch(l_) or dt_(l_)) and r_ == ("const", "NoneType", None):
                 return c[1] == "IsNot"
-            if c[1] in ("Eq", "Is", "NotEq", "IsNot") and l_[0] == "attr" and l_[2] == "kind" and (sch(l_[1]) or dt_(l_[1])) and r_ == ("name", "int"):
-                return c[1] in ("NotEq", "IsNot")
+            if c[1] in ("Eq", "Is", "NotEq", "IsNot") and l_[0] == "attr" and l_[2] == "kind" and (sch(l_[1]) or dt_(l_[1])) and r_[0] == "name":
+                return (r_[1] == LABEL[0]) == (c[1] in ("Eq", "Is"))
+            # (the label tested against a list of kinds: `other.schema().kind in (object, float)`)
+            if c[1] in ("In", "NotIn") and l_[0] == "attr" and l_[2] == "kind" and (sch(l_[1]) or dt_(l_[1])):
+                items_ = list(r_[1]) if r_[0] == "tuple" else it.objs[r_[1]].init if r_[0] == "obj" and it.objs[r_[1]].kind in ("list", "set") else None
+                if items_ is not None and all(x[0] == "name" for x in items_):
+                    return (LABEL[0] in {x[1] for x in items_}) == (c[1] == "In")
             nd = lambda t: t[0] == "call" and t[1][0] == "attr" and t[1][2] == "ndims" and resolve(t[1][1]) == OTHER
             if nd(l_) and r_[0] == "const" and isinstance(r_[2], int):
                 return {"Eq": 1 == r_[2], "NotEq": 1 != r_[2], "Lt": 1 < r_[2], "LtE": 1 <= r_[2], "Gt": 1 > r_[2], "GtE": 1 >= r_[2]}.get(c[1])
@@ -1119,12 +1124,23 @@ def _wrappers(ctx) -> None:
                     return pe(evs[0].value)
             return None
         return None
-    certainly_pairs = [e for e in fallback if e.conds and all(tv(c) is pol for c, pol in _fc(e.conds))]
+    # ... under every label a mask / slice of a mixed column can carry: <object> (ints and strings), <float> (ints and floats),
+    # <complex> (ints and a complex number)
+    LABEL = ["object"]
+    certainly_pairs, under = [], []
+    for lab_ in ("object", "float", "complex"):
+        LABEL[0] = lab_
+        cp_ = [e for e in fallback if e.conds and all(tv(c) is pol for c, pol in _fc(e.conds))]
+        if cp_:
+            certainly_pairs += cp_
+            under.append(f"<{lab_}>")
     ctx.ob("e.wrappers", f, "date-add-vector-by-values", not certainly_pairs,
-           "a vector of day counts labelled <object> / <float> (a mask of a mixed column) does not certainly reach the generic kernel", f.node,
-           message="_Date.__add__: a vector operand is taken for day counts only when its dtype LABEL is int: dates + mixed[mixed.isinstance(int)] "
-                   "(an <object> vector holding only ints) certainly reaches super().__add__, where date + int is a TypeError and the fallback "
-                   "returns (date, int) pairs - while dates + list(days) adds the days")
+           "a vector of day counts labelled <object> / <float> / <complex> (a mask or slice of a mixed column) does not certainly reach the "
+           "generic kernel", f.node,
+           message=f"_Date.__add__: a vector operand labelled {' / '.join(under)} that holds only ints is not taken for day counts: dates + "
+                   "mixed[mixed.isinstance(int)] (a mask or slice of a mixed column keeps the column's label) certainly reaches "
+                   "super().__add__, where date + int is a TypeError and the fallback returns (date, int) pairs - while dates + list(days) "
+                   "adds the days")
     # a _Date object may hold datetimes (a date vector promoted in place stays a _Date): the midnight widening
     # datetime.combine(x, ...) of an ELEMENT must not be applied to an element that already is a datetime (it would drop its time)
     wprobs = []
